@@ -178,6 +178,10 @@ type State struct {
 	trace   []string
 	run     int
 	cache   map[string]map[string]string
+	known   map[string]string
+	nilChecked map[string]bool
+	ranged  map[string]bool
+	cellOrigin map[string]string
 }
 
 func (s *State) top() *Frame { return s.frames[len(s.frames)-1] }
@@ -205,6 +209,30 @@ func (s *State) clone() *State {
 	for k, v := range s.lockedOnce {
 		n.lockedOnce[k] = v
 	}
+	if s.known != nil {
+		n.known = make(map[string]string, len(s.known))
+		for k, v := range s.known {
+			n.known[k] = v
+		}
+	}
+	if s.ranged != nil {
+		n.ranged = make(map[string]bool, len(s.ranged))
+		for k := range s.ranged {
+			n.ranged[k] = true
+		}
+	}
+	if s.cellOrigin != nil {
+		n.cellOrigin = make(map[string]string, len(s.cellOrigin))
+		for k, v := range s.cellOrigin {
+			n.cellOrigin[k] = v
+		}
+	}
+	if s.nilChecked != nil {
+		n.nilChecked = make(map[string]bool, len(s.nilChecked))
+		for k := range s.nilChecked {
+			n.nilChecked[k] = true
+		}
+	}
 	if s.cache != nil {
 		n.cache = make(map[string]map[string]string, len(s.cache))
 		for k, v := range s.cache {
@@ -229,6 +257,79 @@ func (s *State) assume(f string) {
 		return
 	}
 	s.pc = append(s.pc, f)
+	s.learn(f)
+}
+
+// learn records equalities "term = <literal id>" from assumed facts so that calls through
+// function values / interface values whose code or dynamic type a contract has fixed can be
+// resolved without a solver query.
+func (s *State) learn(f string) {
+	for _, c := range topConjuncts(f) {
+		if strings.HasPrefix(c, "(= ") && strings.HasSuffix(c, ")") {
+			parts := splitSexp(c[3 : len(c)-1])
+			if len(parts) == 2 {
+				a, b := parts[0], parts[1]
+				if isLit(b) && !isLit(a) {
+					if s.known == nil {
+						s.known = map[string]string{}
+					}
+					s.known[a] = b
+				} else if isLit(a) && !isLit(b) {
+					if s.known == nil {
+						s.known = map[string]string{}
+					}
+					s.known[b] = a
+				}
+			}
+		}
+	}
+}
+
+func topConjuncts(f string) []string {
+	if strings.HasPrefix(f, "(and ") && strings.HasSuffix(f, ")") {
+		var out []string
+		for _, p := range splitSexp(f[5 : len(f)-1]) {
+			out = append(out, topConjuncts(p)...)
+		}
+		return out
+	}
+	return []string{f}
+}
+
+// splitSexp splits a space-separated sequence of s-expressions at depth 0.
+func splitSexp(s string) []string {
+	var out []string
+	depth := 0
+	start := -1
+	for i := 0; i < len(s); i++ {
+		c := s[i]
+		switch {
+		case c == '(':
+			if depth == 0 && start < 0 {
+				start = i
+			}
+			depth++
+		case c == ')':
+			depth--
+			if depth == 0 {
+				out = append(out, s[start:i+1])
+				start = -1
+			}
+		case c == ' ' || c == '\n' || c == '\t':
+			if depth == 0 && start >= 0 {
+				out = append(out, s[start:i])
+				start = -1
+			}
+		default:
+			if start < 0 {
+				start = i
+			}
+		}
+	}
+	if start >= 0 {
+		out = append(out, s[start:])
+	}
+	return out
 }
 
 func copyHeap(h map[string]string) map[string]string {
